@@ -48,10 +48,22 @@ def _build(pid, n, backing, rng):
         return src.shuffle(True, rng=rng).concatenate(src.map(lambda v: v + 10))
     if pid == 'apply':
         return src.apply(lambda d: d.shuffle(True, rng=rng), lazy=True)
+    # a per-epoch reshuffle *below* stages that take or forward frozen copies themselves
+    if pid == 'reshuffle_pf2':
+        return src.shuffle(True, rng=rng).prefetch(2, 2)
+    if pid == 'reshuffle_pf1':
+        return src.shuffle(True, rng=rng).prefetch(1, 2)
+    if pid == 'reshuffle_catch':
+        return src.shuffle(True, rng=rng).map(lambda v: v + 10).catch()
+    if pid == 'reshuffle_batch':
+        return src.shuffle(True, rng=rng).batch(2)
+    if pid == 'reshuffle_filter':
+        return src.shuffle(True, rng=rng).filter(lambda v: True)
     raise ValueError(pid)
 
 
 PIPELINES = ['reshuffle', 'local', 'oneshot', 'reshuffle_map', 'map_local_batch', 'cat', 'apply']
+BELOW = ['reshuffle_pf2', 'reshuffle_pf1', 'reshuffle_catch', 'reshuffle_batch', 'reshuffle_filter']
 
 
 def body_seed(pid, variant, backing, n, epochs, *args):
@@ -84,7 +96,7 @@ def body_frozen(pid, backing, n, *args):
     r, c = list(args[:NR]), list(args[NR:NR + NC])
     rng = rt.Rng(sel=list(r), choices=list(c))
     ds = _build(pid, n, backing, rng)
-    if pid in ('reshuffle', 'local', 'reshuffle_map', 'map_local_batch', 'cat', 'apply'):
+    if pid in ('reshuffle', 'local', 'reshuffle_map', 'map_local_batch', 'cat', 'apply') or pid in BELOW:
         if ds.ordered:
             return False
     if pid == 'oneshot':
@@ -108,6 +120,8 @@ def body_frozen(pid, backing, n, *args):
             return False
         if pid in ('reshuffle', 'reshuffle_map') and list(fz.catch()) != a:
             return False
+        if pid in BELOW and (list(fz) != a or list(fz) != a):
+            return False              # further epochs of the frozen copy
     it = iter(fz)
     first = [next(it)] if len(a) else []
     if pid != 'oneshot':
@@ -266,7 +280,8 @@ FAMILIES = [
            timeout=dict(quick=90, thorough=900), desc='equally seeded twins agree epoch by epoch, also through copy() and prefetch, independent of the global generator'),
     Family('frozen', body_frozen, ['pid', 'backing', 'n'], RA + CA,
            lambda tier, seed: [(p, b, n) for p in PIPELINES for b in ('list', 'dict') for n in (0, 2, 3) if not (n == 3 and tier == 'quick')
-                               and not (b == 'dict' and p not in ('reshuffle', 'oneshot'))], timeout=dict(quick=90, thorough=600),
+                               and not (b == 'dict' and p not in ('reshuffle', 'oneshot'))]
+                              + [(p, 'list', n) for p in BELOW for n in ((2,) if tier == 'quick' else (2, 3))], timeout=dict(quick=90, thorough=600),
            desc='one-time shuffle and copy(freeze=True) iterate in one fixed order; reshuffling datasets report unordered'),
     Family('copy', body_copy, ['kind', 'flag'], [('p0', 'int'), ('p1', 'int')], lambda tier, seed: [(k, f) for k in STAGES for f in (False, True)], timeout=60,
            desc='copy() preserves every configuration parameter of every stage (symbolic numeric parameters)'),
